@@ -299,6 +299,7 @@ where
     Some(format!("{}|{}", cmp_group(&x, &y), cmp_group(&y, &x)))
 }
 
+#[cfg(feature = "g_ser")]
 /// Serialisation (feature `serde`): JSON text of the value, of its amount and of its unit, and
 /// what deserialising the text gives back.
 pub fn ser_ops<Q>(op: &str, a: &[&str]) -> Option<String>
